@@ -70,7 +70,7 @@ def run(run, replay=None):
         data, _i = fgen.build_file(rng.choice(paths), rng, encs=ENCS, main_enc=rng.choice(['utf-8', 'utf-16', 'latin-1']))
         rcases.append(rdriver.case('f%d' % n, 'scope', data, cat))
         run.count(('foreign', data[:80]), nontrivial=True)
-    can = writer_canaries(traces, rng, want=('read',), count=6)
+    can = run.tolerant(lambda: writer_canaries(traces, rng, want=('read',), count=6))
     for c in can:
         c['chk'] = dict(CHK)
     # canaries for the scope clauses: re-encode nothing, just claim another encoding was declared
